@@ -3,6 +3,7 @@ package props
 import (
 	"verif/sa/internal/e1variants"
 	"verif/sa/internal/e2own"
+	"verif/sa/internal/e3order"
 	"verif/sa/internal/e5path"
 	"verif/sa/internal/e8grammar"
 	"verif/sa/internal/e9pos"
@@ -28,7 +29,7 @@ func runC01(r *oblig.Report) {
 	r.Explanation = "Decides structural necessary conditions of the DSL→model→DSL→model identity: (R1.2) every oneof wrapper the DSL listener builds carries the payload that the repository's own consumers test with GetV()!=nil (in-memory composition is type-consistent); " +
 		"(R1.1) the printer handles all six rewrite variants; (C01.3) operator printers are reached only through the sub-relation printer, whose operator branches wrap their text in parentheses, or from the top level — a nested operator is never printed bare; " +
 		"(R1.3) parameter-type and operator spellings printed are the lexer's literals and every lexer literal maps to an enum value; (C01.5) the condition expression is stored as ctx.GetText() with only surrounding whitespace trimmed and printed through a plain verb; " +
-		"(C02.1b) the printable-position predicate descends exactly into difference base and first child of union/intersection."
+		"(C02.1b) the printable-position predicate descends exactly into difference base and first child of union/intersection; (C02.6/C02.7) the printer considers every part of a type restriction on every path and never succeeds with empty text; (R3.1) the printer's output order never comes from a map (byte stability of the re-rendering)."
 	r.NotCovered = []string{"that the rewrite-stack construction in the listener inverts the printer for every nesting shape (needs running both)", "byte stability of the third rendering", "layouts (C03)"}
 	r.Assumptions = []string{"generated protobuf getters return the payload field of the oneof wrapper, nil for a nil payload"}
 	c := NewCtx(r)
@@ -50,6 +51,18 @@ func runC01(r *oblig.Report) {
 	e1variants.EnumTables(c.P, r, "R1.3", w.LexerG, false) // DSL-born models only contain types the lexer knows
 	e5path.ExpressionVerbatim(c.P, r, "C01.5")
 	e5path.FirstPositionRecursion(c.P, r, "C02.1b")
+	// the second rendering loses nothing and is byte-stable: restriction parts (shared with C02), printer order (shared with C14)
+	r.Rule("C02.6", "instance-table", "every part of a restriction is considered on every path", 3)
+	r.Rule("C02.7", "instance-table", "no success with empty text unless the input is empty", 8)
+	r.Rule("R3.1", "universe", "every loop over a map reachable from the printer is order-insensitive by form (collect-then-sort with a total, antisymmetric comparator etc.)", 0).HandCount = 3
+	e5path.AllPartsPrinted(c.P, r, "C02.6")
+	pfs := c.Reach(c.Entries("transformer.TransformJSONProtoToDSL"))
+	e5path.NoEmptySuccess(c.P, r, "C02.7", pfs)
+	a := &e3order.Analyzer{P: c.P, R: r}
+	a.CollectLoops(pfs)
+	a.Classify("R3.1")
+	a.OrderCalls("R3.1", pfs)
+	e3order.SelfTest(r)
 }
 
 func runC02(r *oblig.Report) {
